@@ -239,7 +239,11 @@ struct Edits {
 			if (orr.cls != 'R') return bad("reread-after-edit-rejected", orr.what);
 			if (mapc::dump(back) != mapc::dump(s.m)) return bad("reread-after-edit-differs", "");
 		}
-		else { ctx.count("edit/low-version-tag-written"); if (orr.cls == 'R') return bad("low-version-tag-accepted-by-reader", ""); }
+		else {
+			// a tag below the minimum: the statement does not say the reader must refuse it; if it is accepted the round trip must hold
+			ctx.count("edit/low-version-tag-written");
+			if (orr.cls == 'R') { ctx.count("edit/low-version-tag-accepted-by-reader"); if (mapc::dump(back) != mapc::dump(s.m)) return bad("reread-after-edit-differs", "low version tag"); }
+		}
 		return true;
 	}
 };
